@@ -85,6 +85,10 @@ func scenario(k int, roles []role, execKind string) func(x *mc.X) {
 			ctx = []fp.Executor{syncExec{}}
 		case "spawn":
 			ctx = []fp.Executor{spawnExec{x}}
+		case "nil":
+			// an explicit nil Executor (a forwarded optional executor that was never set) means
+			// the default executor
+			ctx = []fp.Executor{nil}
 		}
 		var logs []*cbLog
 		mk := func(id, filter string) *cbLog {
@@ -284,12 +288,12 @@ func main() {
 		}
 		ks := []int{0, 3}
 		nroles := 5
-		execs := []string{"default"}
+		execs := []string{"default", "nil"}
 		sizes := []int{2, 3}
 		if r.Thorough() {
 			ks = []int{0, 1, 2, 3, 4, 5}
 			nroles = 9
-			execs = []string{"default", "sync", "spawn"}
+			execs = []string{"default", "nil", "sync", "spawn"}
 		}
 		for _, ex := range execs {
 			for _, k := range ks {
@@ -311,11 +315,11 @@ func main() {
 							}
 						}
 						if two >= 2 {
-							// two threads with two registrations each: 2-14 million interleavings per
-							// scenario unbounded (measured); explored under a preemption bound instead,
-							// for the callback counts at which the listener slice has spare capacity
-							if ex == "default" && (k == 3 || k == 5) {
-								sc := r.Conc(fmt.Sprintf("pb2/k%d/%s/%s", k, strings.Join(names, ","), ex), 2, scenario(k, roles, ex))
+							// two threads with two registrations each: 1.5-2 million interleavings per
+							// scenario (measured; a preemption bound of 2 without reduction costs more):
+							// only for the callback count at which the listener slice has spare capacity
+							if ex == "default" && k == 3 {
+								sc := r.Conc(fmt.Sprintf("k%d/%s/%s", k, strings.Join(names, ","), ex), -1, scenario(k, roles, ex))
 								sc.SplitDepth = 4
 							}
 							continue
@@ -327,16 +331,27 @@ func main() {
 			}
 		}
 		if r.Thorough() {
-			// four threads under a preemption bound
+			// four threads, unbounded with sleep sets (measured: ~0.5 million interleavings and 8 CPU
+			// minutes per scenario; a preemption bound without reduction costs ten times more): two
+			// registering and two completing threads on a promise whose listener slice has spare capacity
 			for _, k := range []int{3} {
 				for _, ms := range multisets(5, 4) {
 					roles := make([]role, 4)
 					names := make([]string, 4)
+					reg, comp := 0, 0
 					for i, m := range ms {
 						roles[i] = role(m)
 						names[i] = roleNames[m]
+						if roles[i].completer() {
+							comp++
+						} else if roles[i] == rOnComplete || roles[i] == rOnSuccess {
+							reg++
+						}
 					}
-					sc := r.Conc(fmt.Sprintf("pb2/k%d/%s/default", k, strings.Join(names, ",")), 2, scenario(k, roles, "default"))
+					if reg != 2 || comp != 2 {
+						continue
+					}
+					sc := r.Conc(fmt.Sprintf("t4/k%d/%s/default", k, strings.Join(names, ",")), -1, scenario(k, roles, "default"))
 					sc.SplitDepth = 4
 				}
 			}
